@@ -297,4 +297,7 @@ def check(model, tier):
             )
     run.assume("max_rows == 0 is truthful (C06 is not decided statically)")
     run.assume("the executor answers truthfully")
+    from ..rules.foundation import run_foundation
+
+    run_foundation(ctx, "16")
     return run
